@@ -1,5 +1,8 @@
 """Per-property configuration of bin/check."""
 
+NOT_APPLICABLE = {}
+HOOK_COMMITS = []
+
 ALLOWED_AXIOMS = {"propext", "Classical.choice", "Quot.sound"}
 
 COMMON_TRUSTED = [
@@ -12,6 +15,8 @@ COMMON_TRUSTED = [
 R = "SycVerif.Route."
 CHECKS = {
     "C17": {
+        "manifest_text": "Lean 4 theorems over a model of RoutePath::match_path, Route::match_path and the derive(Route) expansion: matcher succeeds iff the path fits (declarative Fits relation, shortest-run <p..>), fit unique, captures align and reproduce the path, URL query/fragment ignored, derived enums never panic and pick the first accepting variant — all patterns/paths/enums, no bound. Model tied to /repo by exhaustive+random correspondence on the real code.",
+        "manifest_note": "Trusted: Lean kernel; hand model <-> code agreement only on the cases run (~140k quick, exhaustive blocks listed in evidence); u32::from_str modelled; derive macro's compile-time checks assumed.",
         "lean_modules": ["SycVerif.Props.C17"],
         "theorems": [R + "C17_matchPath_iff_fits", R + "C17_fit_unique", R + "C17_captures_align",
                      R + "C17_captures_reproduce", R + "C17_urlSegments_clean",
@@ -26,5 +31,27 @@ CHECKS = {
         "trusted": ["u32::from_str modelled by parseU32 (optional '+', ASCII digits, < 2^32); String::from_str is the identity",
                     "derive(Route) expansion is modelled (matchVariants/parseFields), the three harness enums are transcribed by hand into Driver/Route.lean; the macro's compile-time checks (field count) are assumed as WFVariant"],
         "assumptions": ["patterns satisfy the property's own premise: <p..> is last or followed by a static segment"],
+    },
+    "C19": {
+        "manifest_text": "Lerp: Lean theorems (endpoints, betweenness, arrays pointwise) for the repaired integer lerp over EVERY round-to-nearest arithmetic whose representable set contains the integers up to 2^24; the same polymorphic definition runs on Float32 in the driver and agrees bit for bit with the real code on all 8-bit pairs. Easing: definitions REGENERATED from easing.rs by a translator on every run; endpoints and well-definedness on [0,1] proved over the reals for every function of the regenerated table; f32 bounds enumerated on the real code (partial).",
+        "manifest_note": "Partial: the binary32 statements about easing (1e-5, finiteness) are enumerated, not proved. Trusted: translator, IEEE round-to-nearest as an instance of Nearest, real semantics of sqrt/sin/cos/rpow, libm.",
+        "pre_lean": "python3 tools/easing_translate.py /repo/packages/sycamore/src/easing.rs lean/SycVerif/Model/EasingGen.lean",
+        "lean_modules": ["SycVerif.Props.C19", "SycVerif.Props.C19Easing"],
+        "theorems": ["SycVerif.Lerp.C19_lerp_between", "SycVerif.Lerp.C19_lerp_zero", "SycVerif.Lerp.C19_lerp_one",
+                     "SycVerif.Lerp.C19_lerpArr_pointwise",
+                     "SycVerif.Easing.C19_easing_endpoints", "SycVerif.Easing.C19_easing_welldefined"]
+                    + ["SycVerif.Easing.%s_chk_val" % n for n in
+                       "linear quad_in quad_out quad_inout cubic_in cubic_out cubic_inout quart_in quart_out quart_inout quint_in quint_out quint_inout circ_in circ_out circ_inout expo_in expo_out expo_inout sine_in sine_out sine_inout bounce_out bounce_in bounce_inout".split()],
+        "engines": [{"harness": "native", "engine": "num"}],
+        "status": "lerp: full statement proved for every round-to-nearest arithmetic (Nearest R) — endpoints, betweenness; totality is by construction of the repaired model (no checked integer operation left) + exhaustive 8-bit correspondence. easing: endpoints and well-definedness on [0,1] proved over the reals for the definitions regenerated from easing.rs; the f32 statements (|f(0)|,|f(1)-1| <= 1e-5, finite on [0,1]) are NOT proved: enumerated on the real code (quick: 2^20+1 grid + 2^22 random bit patterns per function; thorough: every f32 in [0,1])",
+        "partial": [{"theorem": "C19_easing_endpoints / C19_easing_welldefined", "missing": "statement in binary32 (error bound 1e-5, finiteness): IEEE-754 rounding and libm sin/cos/pow are outside the proof; checked by enumeration on the implementation"},
+                    {"theorem": "C19_lerp_*", "missing": "that IEEE-754 binary32 round-to-nearest-even is an instance of Nearest (it is the definition of the rounding mode; not derived from Lean's Float32.Model, which ships without lemmas)"}],
+        "rule": "per-case lines: every pair of u8 and of i8 x 4 (quick) / 9 (thorough) scalars; digests: for every 8-bit start value all targets x scalars j/k (k=16 quick, 256 thorough); boundary+random pairs of i16..u64 (model) and up to i128/usize (implementation only), i32 arrays; easing: special points, 200 random points, k/2^16 (quick) or k/2^20 (thorough) grid digest per function, thorough: every 64th f32 bit pattern of [0,1] vs the model and every f32 of [0,1] on the implementation. non-trivial = a != b and 0 < t < 1 (lerp) / 0 < t < 1 (easing); distinct = distinct request line",
+        "exhaustive_blocks_quick": "all 2*65536 8-bit pairs x scalars {0,1,0.5,0.25}; all 8-bit pairs x scalars j/16 (digest)",
+        "exhaustive_blocks_thorough": "all 8-bit pairs x 9 scalars and x j/256 (digest); every f32 in [0,1] for all 25 easing functions (implementation-side oracle)",
+        "trusted": ["tools/easing_translate.py (refuses anything outside its grammar); the generated definitions are compared bit for bit with the real functions through the Float32 instance (same libm)",
+                    "IEEE-754 binary32 arithmetic: modelled as an arbitrary round-to-nearest onto a set containing the integers up to 2^24 (proofs) and run as Lean Float32 (correspondence, bit-exact)",
+                    "real-number semantics of sqrt/sin/cos/rpow and the real pi for the easing proofs"],
+        "assumptions": ["|a|,|b| <= 2^23 for the exact lerp claims (the property's own premise)"],
     },
 }
